@@ -13,7 +13,7 @@ pub fn meta() -> Meta {
     Meta {
         id: "C12",
         level: "exploration",
-        rule: "paired FASTQ read sets through the real SkaDict::new (in-process) against a brute-force count model: genome g of k+2 letters and a variant g' differing in the middle base of the central window, k in {5,9,31,33} (thorough: + 7, 63), both strand modes. Family A (counts): min-count c=1..6 x every multiplicity pair (a,a') in {0,c-1,c,c+1}^2 for the two central k-mers x every split of each multiplicity between file 1 (forward) and file 2 (reverse complement). Family B (quality): c in 1..3, three quality rules x min-qual in {0,1,20,40} x one designated low-quality base (middle, middle-1, first, last of a k-long read; positions 0, h, h+1, k+1 of a (k+2)-long read) with quality in {Q-1,Q,Q+1} on exactly one of the c copies. Family C: N at every position of the long read. Family D: the same through `ska build -f` option parsing (one of the two files with CRLF line ends in two of the four configurations), and a single FASTQ file given as positional argument or as a two-field list line. Family E (k in {5,33}; thorough + 7, 31, 63): every multiset of up to three reads drawn from all substrings of length k..k+3, both orientations, of a (k+3)-letter genome and of its one-substitution variant (quick: triples from the genome only), all in file 1 or alternating between the files, c=1..3 (the same k-mer met as first window of one read and as rolled window of another, on either strand); and every pair of such reads with one base of quality Q-1 or Q at every position of the first (k<=7; ends and window middles otherwise; quick: k=5 only), middle and strict rule, c=1..2. One larger data set (~2*10^4 distinct k-mers plus singleton error k-mers) bounds the share of below-threshold k-mers that enter. Non-trivial = the model's dictionary is non-empty or a k-mer sits exactly at a threshold.".into(),
+        rule: "paired FASTQ read sets through the real SkaDict::new (in-process) against a brute-force count model: genome g of k+2 letters and a variant g' differing in the middle base of the central window, k in {5,9,31,33} (thorough: + 7, 63), both strand modes. Family A (counts): min-count c=1..6 x every multiplicity pair (a,a') in {0,c-1,c,c+1}^2 for the two central k-mers x every split of each multiplicity between file 1 (forward) and file 2 (reverse complement). Family B (quality): c in 1..3, three quality rules x min-qual in {0,1,20,40} x one designated low-quality base (middle, middle-1, first, last of a k-long read; positions 0, h, h+1, k+1 of a (k+2)-long read) with quality in {Q-1,Q,Q+1} on exactly one of the c copies. Family C: N at every position of the long read. Family D: the same through `ska build -f` option parsing (one of the two files with CRLF line ends in two of the four configurations), and a single FASTQ file given as positional argument or as a two-field list line. Family P (k in {5,7,31,33}; thorough + 9, 15, 63): reads holding a k-mer whose arms are reverse complements of each other (X m rc(X), each m; bare, with flanks), c=1..3, totals c-1/c/c+1 split between the strands and the files in every way. Family E (k in {5,33}; thorough + 7, 31, 63): every multiset of up to three reads drawn from all substrings of length k..k+3, both orientations, of a (k+3)-letter genome and of its one-substitution variant (quick: triples from the genome only), all in file 1 or alternating between the files, c=1..3 (the same k-mer met as first window of one read and as rolled window of another, on either strand); and every pair of such reads with one base of quality Q-1 or Q at every position of the first (k<=7; ends and window middles otherwise; quick: k=5 only), middle and strict rule, c=1..2. One larger data set (~2*10^4 distinct k-mers plus singleton error k-mers) bounds the share of below-threshold k-mers that enter. Non-trivial = the model's dictionary is non-empty or a k-mer sits exactly at a threshold.".into(),
         assumptions: vec!["an extra entry would only be acceptable as a counting-filter collision; on these inputs none is expected and any extra is reported".into(), "a sample in which nothing reaches the threshold may be refused".into()],
         exhaustive_when_uncapped: true,
     }
@@ -248,6 +248,50 @@ pub fn run(ctx: &Ctx, rep: &mut Report) {
             }
         }
         rep.completed.push(format!("k={k} families A, B, C"));
+    }
+    // Family P: k-mers whose two arms are reverse complements of each other (X m rc(X)): the k-mer and its reverse
+    // complement X comp(m) rc(X) are one split k-mer with tied orientation; copies split between the strands in every way
+    let pks: Vec<usize> = if thorough { vec![5, 7, 9, 15, 31, 33, 63] } else { vec![5, 7, 31, 33] };
+    for k in pks {
+        let h = (k - 1) / 2;
+        let x = repeat_free(k + 40, k, 0, ctx.seed + 130)[3..3 + h].to_vec();
+        for m in *b"ACGT" {
+            for rc in [true, false] {
+                idx += 1;
+                if !ctx.mine(idx) {
+                    continue;
+                }
+                let kmer: Vec<u8> = [x.as_slice(), &[m], rc_str(&x).as_slice()].concat();
+                // bare (read of exactly k letters) and embedded in flanks (first window and rolled window)
+                for (lf, rf) in [(&b""[..], &b""[..]), (&b"GT"[..], &b"CA"[..]), (&b""[..], &b"TTG"[..])] {
+                    let read: Read = ([lf, kmer.as_slice(), rf].concat(), vec![30u8; lf.len() + k + rf.len()]);
+                    for c in 1..=3usize {
+                        for total in [c.saturating_sub(1), c, c + 1] {
+                            for fwd in 0..=total {
+                                let mut f1: Vec<Read> = Vec::new();
+                                let mut f2: Vec<Read> = Vec::new();
+                                for i in 0..fwd {
+                                    if i % 2 == 0 { f1.push(read.clone()) } else { f2.push(read.clone()) }
+                                }
+                                for i in 0..(total - fwd) {
+                                    if i % 2 == 0 { f2.push(rc_read(&read)) } else { f1.push(rc_read(&read)) }
+                                }
+                                let files = [f1, f2];
+                                for rule in [QRule::None, QRule::Strict] {
+                                    run_case(rep, &Case { k, rc, c, q: 20, rule, files: &files }, "P");
+                                }
+                            }
+                        }
+                    }
+                }
+                rep.corner("self_complementary_arms");
+            }
+        }
+        if ctx.expired() {
+            rep.capped = true;
+            return;
+        }
+        rep.completed.push(format!("k={k} family P"));
     }
     // Family E: every multiset of up to three reads drawn from all substrings (length k..k+3, both orientations)
     // of a genome of k+3 letters and of its one-substitution variant: the same k-mer is met at different offsets of
